@@ -167,6 +167,12 @@ fn exec(op: &str, args: &[&str], expected: &str) -> Option<Verdict> {
     };
     if let Some(d) = note { return Some(Verdict::Mismatch { observed, detail: d }); }
     if expected == "open" { return Some(Verdict::Open(observed)); }
+    // region of the open finding C14-dot-2d-rectangular-refused: the model mirrors the test-pinned refusal of `dot`,
+    // the driver sends the textbook product along; the real code is held to the property (the product), not to the model
+    if let Some((model, want)) = expected.split_once(" | matmul ") {
+        return Some(if observed == want { Verdict::Match(observed) } else {
+            Verdict::Mismatch { observed, detail: format!("dot of two conforming matrices whose product is not square: the property demands `{}`; the model, mirroring the refusal pinned by products_test::test_linalg_dot::case_15, says `{}`", truncate(want, 300), model) } });
+    }
     Some(compare_default(observed, expected))
 }
 
